@@ -51,6 +51,11 @@ CHECKS: dict[str, dict] = {
         technique="stateless schedule and fault enumeration on the real asyncio loop: completion of every connect attempt and one external cancel placed at every loop-iteration boundary and relative to the stagger timer (incl. exact coincidence), socket()/bind() faults per attempt",
         text="All address lists up to the bound, all outcome vectors (connects / refused / hangs / socket() fails / bind() fails), all completion orders within the deviation bound: exactly one open socket is returned on success, every other created socket is closed, failure carries one error per attempt, cancellation closes everything including an already chosen winner, no attempt task survives.",
     ),
+    "C03": dict(
+        cat="model_checking", ref="DESIGN.md §3 C03", engine="E1 world + E3 vblock + E2 vloop + E5 canon",
+        technique="explicit-state exploration of the real blocking endpoint/client on a fake socket (every chunking x every close offset x every call history, states merged on delivered bytes, calls, results and canonical receiver heap) against a list reference model; async endpoint/client by schedule enumeration",
+        text="For every stream up to 3 packets (+ partial trailing frame), every byte offset of the peer's close, every chunking and every history of recv_packet / iter_received_packets calls with timeouts in {None, >0, 0}: each complete packet exactly once in order, end-of-stream only after all of them, never a partial frame, and end-of-stream is sticky without blocking.",
+    ),
 }
 
 NOT_YET: dict[str, str] = {}
